@@ -228,6 +228,45 @@ m('c17-hits-in-getttl', ['C17'], 'cache.go', """	if _, ok := c.storedItems.Get(k
 	c.Metrics.add(hit, keyHash, 1)
 """)
 
+# ---- C08
+m('c08-update-no-lock', ['C08'], 'store.go', """	verifYield(verifSiteStoreUpdate, newItem.Key)
+	m.Lock()
+	defer m.Unlock()
+""", """	verifYield(verifSiteStoreUpdate, newItem.Key)
+""")
+m('c08-maxcost-plain-load', ['C08'], 'policy.go', """	return atomic.LoadInt64(&p.maxCost)""", """	return p.maxCost""")
+m('c08-expiration-no-lock', ['C08'], 'store.go', """	verifYield(verifSiteStoreExpiration, key)
+	m.RLock()
+	defer m.RUnlock()
+	return m.data[key].expiration""", """	verifYield(verifSiteStoreExpiration, key)
+	return m.data[key].expiration""")
+m('c08-life-histogram-unlocked', ['C08'], 'cache.go', """	p.mu.Lock()
+	defer p.mu.Unlock()
+	p.life.Update(numSeconds)""", """	p.life.Update(numSeconds)""")
+m('c08-policy-has-no-lock', ['C08'], 'policy.go', """	verifYield(verifSitePolicyCap, 0)
+	p.Lock()
+	capacity := p.evict.getMaxCost() - p.evict.used
+	p.Unlock()""", """	verifYield(verifSitePolicyCap, 0)
+	capacity := p.evict.getMaxCost() - p.evict.used""")
+m('c08-wait-marker-dropped-when-full', ['C08'], 'cache.go', """	verifYield(verifSiteWaitSend, 0)
+	c.setBuf <- &Item[V]{wait: wait}""", """	verifYield(verifSiteWaitSend, 0)
+	select {
+	case c.setBuf <- &Item[V]{wait: wait}:
+	default:
+	}""")
+m('c08-clear-forgets-restart-when-empty', ['C08','C15'], 'cache.go', """	verifYield(verifSiteClearRestart, 0)
+	go c.processItems()""", """	verifYield(verifSiteClearRestart, 0)
+	if len(c.setBuf) == 0 {
+		go c.processItems()
+	}""")
+m('c08-iter-panics-on-stop', ['C08'], 'store.go', """				if stop := cb(item.value); stop {
+					return true
+				}""", """				if stop := cb(item.value); stop {
+					var mm map[int]int
+					mm[1] = 1
+					return true
+				}""")
+
 def run(cmd, **kw):
     return subprocess.run(cmd, shell=True, capture_output=True, text=True, **kw)
 
@@ -254,6 +293,7 @@ def main():
                 status={0:'MISSED',1:'CAUGHT',2:'MACHINERY'}.get(r.returncode,str(r.returncode))
                 print(f"{mu['name']:40s} {p} {status:9s} {','.join(rules)[:90]} ({time.time()-t:.0f}s)", flush=True)
                 if r.returncode==2: print(r.stdout[-500:], r.stderr[-500:])
+                if os.environ.get('SHOW'): print(r.stdout[:int(os.environ['SHOW'])])
                 results.append((mu['name'],p,status,rules))
         finally:
             open(path,'w').write(src)
